@@ -572,6 +572,21 @@ def oh_twist(c, a, st, v):
     c.teq(st, "twist: source type = a ● b", src_type(st, v), mk_concat([x, y]))
     c.teq(st, "twist: target type = b ● a", tgt_type(st, v), mk_concat([y, x]))
     c.eq(st, "twist: discrete", inv.values_len(v.f["h"].f["x"]), 0)
+    crossing(c, st, tab(v.f["s"]), tab(v.f["t"]), t_len(x), t_len(y), "twist")
+
+
+def crossing(c, st, s_leg, t_leg, na, nb, what):
+    """The wiring of the symmetry a ● b -> b ● a: source position i of a meets target position |b|+i, source position
+    |a|+j of b meets target position j.  Two canonical presentations over a + b nodes (one leg the identity)."""
+    n = na + nb
+    ident = mk_arange(0, n)
+    fwd = mk_concat([mk_arange(nb, n), mk_arange(0, nb)])       # a-block to positions |b|.., b-block to 0..
+    bwd = mk_concat([mk_arange(na, n), mk_arange(0, na)])       # its inverse
+    ok = (terms_equal(st, s_leg, fwd) and terms_equal(st, t_leg, ident)) or \
+         (terms_equal(st, s_leg, ident) and terms_equal(st, t_leg, bwd))
+    c.ob("ENS", f"{what}: the two blocks are crossed (the i-th wire of a leaves at position |b|+i, the j-th wire of b at position j)",
+         f"(s, t) ≡ ([|b|..|a|+|b|, 0..|b|], id) or (id, [|a|..|a|+|b|, 0..|a|]): got s={show_term(normalise(st, s_leg))[:120]} t={show_term(normalise(st, t_leg))[:120]}",
+         ok, st, actual=(s_leg, t_leg))
 
 
 @spec(f"{S_OH}::<K, O, A>::source", f"<{S_OH}<K, O, A> as category::traits::Arrow>::source")
@@ -1070,6 +1085,7 @@ def lax_twist(c, a, st, v):
     c.teq(st, "twist: source type a ● b", mk_gather(st, nodes, v.f["sources"].t), mk_concat([x, y]))
     c.teq(st, "twist: target type b ● a", mk_gather(st, nodes, v.f["targets"].t), mk_concat([y, x]))
     c.eq(st, "twist: no hyperedges", t_len(hyp(v).f["edges"].t), 0)
+    crossing(c, st, v.f["sources"].t, v.f["targets"].t, t_len(x), t_len(y), "lax twist")
 
 
 @spec(f"{L_OH}::singleton")
@@ -1861,6 +1877,10 @@ def forget_map_operation(c, a, st, v):
         c.teq(st, "forget keeps the operation: sources 0..|s|", v.f["sources"].t, mk_arange(0, ns))
         c.teq(st, "forget keeps the operation: targets |s|..|s|+|t|", v.f["targets"].t, mk_arange(ns, ns + nt))
         import contracts_lax
+        if is_var:
+            not_all_equal = any(isinstance(k, tuple) and k and k[0] == "all" and not truth for (k, truth) in st.unk)
+            c.ob("ENS", "forget keeps a variable-labelled hyperedge only if its incident labels are not all equal",
+                 "kept ∧ a == var ⇒ the path established that some label differs", not_all_equal, st)
         c.ob("ENS", "forget keeps the operation: the hyperedge carries the operation's own label",
              f"edges ≡ [a]: got {show_term(edges)[:200]}", edges == ("single", ("user", contracts_lax.key_of(a["a"]))) or edges == ("single", contracts_lax.key_of(a["a"])), st)
     else:
